@@ -7,7 +7,6 @@ import (
 
 	"pgregory.net/rapid"
 
-	"github.com/free5gc/chf/verifapi"
 	"verifharness/h"
 )
 
@@ -16,13 +15,13 @@ import (
 //	stored balance + held reservation == credited - unitCost * online usage
 func checkIdentity(w *World, v *h.Verdict, step int, res *Result) bool {
 	for si, st := range w.subs {
-		snap := verifapi.Snapshot(st.supi)
+		snap := snapshot(st.supi)
 		if snap.Locked {
 			v.Failf("subscriber-locked", "step %d (%s): subscriber %d is still locked after the request returned", step, res.Op.K, si)
 			return false
 		}
 		for rg := int32(1); rg <= 3; rg++ {
-			q, err := env.Quota(st.supi, rg)
+			q, err := acctQuota(st.supi, rg)
 			if err != nil {
 				v.Failf("quota-unreadable", "step %d: %v", step, err)
 				return false
@@ -59,7 +58,7 @@ func judgeC01(hst Hist) *h.Verdict {
 		if len(w.subs) > 0 {
 			st = w.subs[op.S%len(w.subs)]
 		}
-		pre := verifapi.Snapshot(st.supi)
+		pre := snapshot(st.supi)
 		res := w.Exec(op)
 		if res.Skipped {
 			continue
@@ -134,7 +133,7 @@ func judgeC01(hst Hist) *h.Verdict {
 		}
 		// final debit: unused reservation refunded exactly, nothing held afterwards
 		if (op.K == "release" || op.K == "update") && op.Trig == "FINAL" {
-			post := verifapi.Snapshot(st.supi)
+			post := snapshot(st.supi)
 			for _, u := range op.UUs {
 				online := false
 				for _, c := range u.Conts {
@@ -151,7 +150,7 @@ func judgeC01(hst Hist) *h.Verdict {
 }
 
 func genC01(t *rapid.T) Hist {
-	return genHist(t, genOpts{maxSubs: 3, maxSess: 3, minOps: 4, maxOps: h.Scale(24, 40), recharge: true, offline: true, bigCost: true, mixCompliant: true})
+	return genHist(t, genOpts{maxSubs: 3, maxSess: 3, minOps: 4, maxOps: h.Scale(24, 40), recharge: true, offline: true, bigCost: true, mixCompliant: true, rgNums: true})
 }
 
 func TestC01Conservation(t *testing.T) { h.Run(t, "C01", "histories", genC01, judgeC01) }
